@@ -482,7 +482,7 @@ def run(ctx):
         res.merge(r)
     res.rule = ('(document, path) pairs: random trees of 3-12 nodes over 3 names x 3 namespaces with numeric/string '
                 'attributes, text/comment/PI nodes, chains of repeated names; paths from the grammar of the documented '
-                'subset (<= 4 steps, <= 2 predicates per step, unions), 70% aimed at a node of the document; plus every '
+                'subset (<= 4 steps, <= 2 predicates per step, unions), 70%% aimed at a node of the document; plus every '
                 'tree shape with <= %d elements x every 1-2 step structural path. non-trivial = judged by the oracle and '
                 'the result is neither empty nor the whole document; distinct by (path shape, document shape)' % maxn)
     res.samples = res.samples[:6]
